@@ -982,9 +982,11 @@ class Explore:
         return [b for b in self.blocks if self.fn.blocks[b]["term"]["k"] == "return"]
 
 
-def sccs(fn, blocks=None, removed=()):
-    """strongly connected components (with at least one edge) of the normal-flow CFG"""
+def sccs(fn, blocks=None, removed=(), edges=None):
+    """strongly connected components (with at least one edge) of the normal-flow CFG;
+    edges: optional set of (from, to) pairs the traversal is restricted to"""
     blocks = set(blocks if blocks is not None else fn.live_blocks()) - set(removed)
+    _succs = fn.succs if edges is None else (lambda v: [w for w in fn.succs(v) if (v, w) in edges])
     index = {}
     low = {}
     stack = []
@@ -1000,7 +1002,7 @@ def sccs(fn, blocks=None, removed=()):
         counter[0] += 1
         stack.append(v)
         on.add(v)
-        for w in fn.succs(v):
+        for w in _succs(v):
             if w not in blocks:
                 continue
             if w not in index:
@@ -1016,7 +1018,7 @@ def sccs(fn, blocks=None, removed=()):
                 comp.append(w)
                 if w == v:
                     break
-            if len(comp) > 1 or v in fn.succs(v):
+            if len(comp) > 1 or v in _succs(v):
                 out.append(set(comp))
 
     for v in sorted(blocks):
